@@ -23,6 +23,8 @@ def accepted(line, version):
         m.validate(version)
     except vol.Invalid:
         return None
+    except Exception:  # noqa: BLE001  an internal error of the validator: not accepted (logic() will show it)
+        return None
     return (m.node_id, m.child_id, m.type, m.ack, m.sub_type, m.payload)
 
 
